@@ -297,6 +297,9 @@ def split_contract(text):
                 raise GenError('contract text has a brace at depth 0 (wrap in parens): %r' % text[max(0, i - 40):i + 20])
             i = rs.match_close(m, i) + 1
             continue
+        if c == '|' and m[i + 1:i + 2] == '|':
+            i += 2      # logical or
+            continue
         if c == '|':
             # closure/quantifier binder |x: int| : skip to closing bar
             j = m.find('|', i + 1)
@@ -515,8 +518,9 @@ class Unit:
         props = block.get('props') or self.props
         self.functions.append({'id': fid, 'file': src.rel, 'line': src.line_of(it.decl), 'props': props})
         (h0, po, pc, arrow, rstart, rend, where_pos, bopen) = rs.fn_parts(src.text, src.m, it)
-        if bopen < 0:
-            raise GenError('%s has no body' % spec)
+        nobody = bopen < 0
+        if nobody:
+            bopen = it.end - 1   # position of the terminating ';'
         sig = src.text[h0:bopen]
         if arrow >= 0:
             rtype = src.text[rstart:rend].strip()
@@ -526,6 +530,8 @@ class Unit:
         sig = nz.body(sig, where)
         body = src.text[bopen:it.end]
         body = nz.body(body, where)
+        if nobody and (block.get('loops') or block.get('ats') or block.get('loop_ats') or block.get('havocs')):
+            raise GenError('%s is a declaration without body: only a contract can be attached' % spec)
         # N6 havocs
         for (n, needle, expr) in block.get('havocs', []):
             bm = rs.mask(body)
